@@ -317,16 +317,6 @@ def double_cast(t):
     return any(double_cast(c) for c in T.children(t))
 
 
-def typed_key(t):
-    """getItem(<Column>) whose key is not plain column arithmetic: sqlglot's DuckDB generator then adds its index
-    offset depending on its own type inference (CAST/CASE/literal types) -- not modelled, not generated"""
-    def plain(k):
-        return k[0] in ("col", "lit", "py") or (k[0] in ("bin", "rbin", "neg") and all(plain(c) for c in T.children(k)))
-    if t[0] == "getitemcol" and not plain(t[2]):
-        return True
-    return any(typed_key(c) for c in T.children(t))
-
-
 def make_trees(ctx):
     rnd = random.Random(ctx.seed)
     g = T.Gen(rnd)
@@ -341,7 +331,7 @@ def make_trees(ctx):
     for src, ts in (("corpus", CORPUS), ("exhaustive", exh), ("random", rand)):
         for t in ts:
             k = repr(t)
-            if k not in seen and not double_cast(t) and not typed_key(t):
+            if k not in seen and not double_cast(t):
                 seen.add(k)
                 out.append((src, t))
     return out, len(exh)
@@ -409,6 +399,7 @@ def run(ctx: core.Ctx):
         proved = ctx.prove([gen_v, core.COQ + "/props/C05.v"],
                            dep_theories=["Base/Val.v", "C05/Syntax.v", "C05/Parse.v", "C05/ParseProof.v", "C05/RoundTrip.v",
                                          "C05/Sem.v", "C05/Build.v", "C05/Class.v", "C05/Safe.v", "C05/Main.v", "C05/Check.v"])
+    refuted = prove_refutations(ctx) if t1_ok else {}
     if not os.path.exists(ctx.build + "/gen/C05Facts.vo"):
         # the case files need Gen.C05Facts: fall back to the facts of the pinned source so that the search can run
         ctx.gen("C05Facts", open(PINNED_FACTS).read())
@@ -519,6 +510,7 @@ def run(ctx: core.Ctx):
         else:
             k = vals_eq(spec, r["vals"])
             if k is not None:
+                desc["row_index"] = k
                 bad = f"select: row {T.ROWS[k]} gives {r['vals'][k]}, PySpark gives {spec[k]}"
             elif "where" in r:
                 want = [i for i, v in zip(ids, spec) if v == "bT"]
@@ -558,7 +550,12 @@ def run(ctx: core.Ctx):
         ctx.broken(key, f"{len(v)} trees; smallest: {v[0]['python']}", data=v[:5])
     for key, (t, bad, desc) in first.items():
         ctx.deviation(key, f"{T.to_src(t)}: {bad}", desc)
-    ctx.coverage["deviation_examples"] = {k: {"python": T.to_src(t), "sql": d.get("sql_sent"), "what": bad, "unsafe_subtrees": d["unsafe_subtrees"], "tree": t}
+    for sig, ok in refuted.items():
+        if not ok and sig in first:
+            ctx.broken("refuted-vs-observed", f"{sig}: the model of the current source no longer exhibits the defect, "
+                       f"but the implementation still does: {T.to_src(first[sig][0])}", first[sig][2])
+    ctx.coverage["refutation_witnesses"] = refuted
+    ctx.coverage["deviation_examples"] = {k: {"python": T.to_src(t), "sql": d.get("sql_sent"), "what": bad, "unsafe_subtrees": d["unsafe_subtrees"], "tree": t, "row_index": d.get("row_index", 0)}
                                           for k, (t, bad, d) in sorted(first.items())}
     # ---- spec vs PySpark recordings
     n_rec = n_rec_ok = 0
@@ -611,6 +608,41 @@ def run(ctx: core.Ctx):
         "functions.col/lit/when, element_at_using_brackets) behave as modelled in Build.build",
     ]
     ctx.trusted += ["translate/c05_facts.py (symbolic executor + AST-hash pins), checks/c05.py comparator, DuckDB json_serialize_sql as parse oracle"]
+
+
+REFUTED_V = os.path.join(core.COQ, "props", "C05_refuted.v")
+
+
+def prove_refutations(ctx) -> dict:
+    """coq/props/C05_refuted.v holds one chunk per known finding the model can express: a witness tree + row with
+    `bad gen_cfg row tree = true` (vm_compute) and the corollary ~C05_full.  Each chunk is compiled on its own:
+    a chunk that no longer compiles means the defect is gone from the model of the current source (e.g. repaired
+    upstream) -- that is not an alarm by itself; run() cross-checks it against what the implementation does."""
+    out = {}
+    if not os.path.exists(REFUTED_V):
+        return out
+    txt = open(REFUTED_V).read()
+    header, *chunks = re.split(r"\(\* ---- signature: (\S+) \*\)\n", txt)
+    for sig, body in zip(chunks[0::2], chunks[1::2]):
+        name = "C05R_" + re.sub(r"\W", "_", sig.split("/", 1)[1])
+        path = ctx.gen(name, header + body)
+        gate = core.grep_gate([path])
+        n = core.count_obligations(path)
+        ctx.obligations += n
+        if gate:
+            ctx.broken("axiom-gate:" + name, "; ".join(gate[:3]))
+            continue
+        rc, o, err, dt, cmd = ctx.coqc(path)
+        ctx.checker_cmds.append(cmd)
+        out[sig] = rc == 0
+        if rc == 0:
+            ctx.discharged += n
+            for blk in core.parse_assumptions(o):
+                ctx.assumptions_printed.append(f"{name}: {blk}")
+        else:
+            ctx.obligations -= n          # not an obligation of this source tree any more
+            ctx.log(f"refutation witness for {sig} no longer holds of the model of this source tree")
+    return out
 
 
 def in_theorem_class(desc) -> bool:
